@@ -98,6 +98,10 @@ def run(ctx, spec):
         exp[i] = ('%s.mul/id-%s' % (g, idr), None, (which, 'id', idr, k), False)
         # arbitrary curve point (outside the subgroup for G2)
         T = points.rand_curve_point(rng, 1) if which == 1 else rm.gmul(2, rng.randrange(1, r))   # G2: the property covers the subgroup only
+        if which == 1 and rng.random() < 0.5:
+            got = points.directed_g1_point(rng)      # x^2 / y^2 / y^4 at a small-multiple boundary: stresses the first doubling of the ladder
+            if got:
+                T = got[0]
         k = rng.choice([0, 1, 2, 3, r - 1, rng.randrange(1 << 16), rng.randrange(r)])
         Treg = pr.let(g + '.lit', rm.jac_lit(F, T, gen.lam_for(rng, which) if rng.random() < 0.5 else None))[0]
         reg, i = pr.let(g + '.mul', Treg, h32(k))
